@@ -28,6 +28,11 @@ def _u_terms(lin):
     return [(s, a) for s, a in lin if a[0] == "gsum" and a[1] == U_]
 
 
+def b_loc(builder, term, fallback):
+    loc = builder.loc.get(term)
+    return loc[1] if loc else fallback.node
+
+
 def check(ctx):
     repo = ctx.repo
     ctx.explanation = (
@@ -87,6 +92,63 @@ def check(ctx):
                else f"group universe is {uni}: a county / district that exists only through unexpected units gets no row")
     # ---- R2 --------------------------------------------------------------------------------------
     key_availability(ctx, "C11.R2")
+    # a group that exists only through unexpected units can have ZERO two-party votes (a unit listed before it has counted
+    # anything, or with third-party votes only): every quotient by a group turnout total in the bootstrap aggregate functions has
+    # to map 0/0 to 0 (nan_to_num), or the new group's prediction / bounds come out NaN
+    bc0 = repo.cls(BM, "BootstrapElectionModel")
+    nq = 0
+    for qn in ("get_aggregate_predictions", "get_aggregate_prediction_intervals"):
+        qf = ctx.fn(BM, f"BootstrapElectionModel.{qn}")
+        qs = mb.summarize(qf, {"estimand": ("const", "margin")}, self_cls=bc0)
+        pool = [t_ for _, _, t_, _ in qs.assigns] + [w[2] for w in qs.attr_writes] + [qs.ret()]
+        guarded, quotients = set(), []
+        for t_ in pool:
+            for x in ir.walk(t_):
+                if x[0] == "call" and x[1][0] == "global" and x[1][1].endswith("nan_to_num") and x[2]:
+                    g_ = x[2][0]
+                    while g_[0] == "call" and g_[1][0] == "attr" and g_[1][2] in ("reshape", "flatten"):
+                        g_ = g_[1][1]
+                    guarded.add(g_)
+                if x[0] == "bin" and x[1] == "/" and any(y[0] == "bin" and y[1] == "@" for y in ir.walk(x[3])) and x not in quotients:
+                    quotients.append(x)
+        for x in quotients:
+            nq += 1
+            ok = x in guarded
+            ctx.ob("C11.R3.zero-turnout", util.key(qf, b_loc(mb, x, qf)), ok, qf.where(b_loc(mb, x, qf)),
+                   "the quotient by the group's turnout total is wrapped in nan_to_num (0/0 -> 0)" if ok
+                   else f"{ir.show(x, maxdepth=2)[:120]} divides by a group turnout total without nan_to_num: a group created by an unexpected unit "
+                        f"with zero two-party votes gets NaN instead of 0")
+    ctx.sites("C11.R3.zero-turnout", nq, 4, "quotients by a group turnout total in the bootstrap aggregate functions")
+    # the id parsers that recover the keys of an unexpected unit must be total: ids of units we do not know have no guaranteed
+    # shape, so an index >= 1 into the '_'-split id needs a length guard on every path (else IndexError ends the whole run)
+    CD_ = "elexmodel.handlers.data.CombinedData"
+    nparse = 0
+    for qn in ("CombinedDataHandler._get_county_fips_from_geographic_unit_fips", "CombinedDataHandler._get_district_from_geographic_unit_fips"):
+        pf = ctx.fn(CD_, qn)
+        from ..cfg import CFG as _CFG
+        pcfg = _CFG(pf.node)
+        split_names = {t.id for a in util.own_nodes(pf, ast.Assign) for t in a.targets if isinstance(t, ast.Name)
+                       and isinstance(a.value, ast.Call) and isinstance(a.value.func, ast.Attribute) and a.value.func.attr == "split"}
+        for sub in util.own_nodes(pf, ast.Subscript):
+            if isinstance(sub.value, ast.Name) and sub.value.id in split_names and isinstance(sub.slice, ast.Constant) and isinstance(sub.slice.value, int):
+                nparse += 1
+                idx = sub.slice.value
+                need = idx + 1 if idx >= 0 else -idx
+                guarded = need <= 1  # split() always returns at least one component
+                for test, pol in pcfg.guards(pcfg.node_of(sub)):
+                    for cmp_ in ast.walk(test):
+                        if isinstance(cmp_, ast.Compare) and len(cmp_.ops) == 1 and isinstance(cmp_.left, ast.Call) and isinstance(cmp_.left.func, ast.Name) \
+                                and cmp_.left.func.id == "len" and cmp_.left.args and isinstance(cmp_.left.args[0], ast.Name) and cmp_.left.args[0].id == sub.value.id \
+                                and isinstance(cmp_.comparators[0], ast.Constant) and isinstance(cmp_.comparators[0].value, int) and pol:
+                            c0 = cmp_.comparators[0].value
+                            if (isinstance(cmp_.ops[0], ast.Gt) and c0 >= need - 1) or (isinstance(cmp_.ops[0], ast.GtE) and c0 >= need) \
+                                    or (isinstance(cmp_.ops[0], ast.Eq) and c0 >= need):
+                                guarded = True
+                ctx.ob("C11.R2.parse-total", util.key(pf, sub), guarded, pf.where(sub),
+                       f"component {idx} of the split id is read only where the id is known to have it" if guarded
+                       else f"component {idx} of the '_'-split id is read without a length guard: an unexpected unit whose id has fewer parts "
+                            f"raises IndexError and the whole estimate run fails")
+    ctx.sites("C11.R2.parse-total", nparse, 2, "indexed reads of the split unit id in the key parsers")
     # ---- R3 bootstrap ------------------------------------------------------------------------------
     bc = repo.cls(BM, "BootstrapElectionModel")
     for qn, names in (("get_aggregate_predictions", {"aggregate_z_total": "results_weights"}),
